@@ -325,6 +325,14 @@ def run_dm(sc):
             q0 = np.asarray(make_calc(sc, xi, lam, math.pi / 2, model).resolution.q_calc, dtype="d")
             qc = math.sqrt(q0[0] * min(q0[-1], 2 * math.pi / lam.max()))
             theta = math.asin(qc * lam.max() / (2 * math.pi))
+        # another spin-echo grid with the same number of points and the same end points but other interior points
+        # is set up first in this process: what is computed for one grid must not leak into another
+        if len(xi) >= 3 and xi[0] > 0:
+            lin = np.linspace(xi[0], xi[-1], len(xi))
+            geo = np.geomspace(xi[0], xi[-1], len(xi))
+            decoy = geo if np.allclose(xi, lin, rtol=1e-6) else lin
+            if not np.allclose(decoy, xi, rtol=1e-6):
+                make_calc(sc, decoy, lam, theta, model)
         calc = make_calc(sc, xi, lam, theta, model)
         T = calc.resolution
         q = np.asarray(T.q_calc, dtype="d")
